@@ -8,16 +8,16 @@ namespace Zvbi.Search
 /-- a fold that ends with a value other than -1: that value is the first non-zero return value of
     `search_page_fwd`, all found pages before it returned 0 (judged in the initial search context: the pages
     returning 0 leave the fields `search_page_fwd` reads untouched) -/
-theorem runPos_hit_fwd (exec : Exec) (c : Cache) : ∀ (L : List Pos) (s sf : SearchSt) (r : Int),
-    runPos (pageFwd exec) c L s = (r, sf) → r ≠ -1 →
+theorem runPos_hit_fwd (sh : Shape) (exec : Exec) (c : Cache) : ∀ (L : List Pos) (s sf : SearchSt) (r : Int),
+    runPos (pageFwd sh exec) c L s = (r, sf) → r ≠ -1 →
     ∃ pre x post e s0, L = pre ++ x :: post ∧ lookupX c x.1 x.2.1 = some e ∧ Frozen s s0 ∧
-      pageFwd exec s0 x.1.toNat e x.2.2 = (r, sf) ∧
-      ∀ y ∈ pre, ∀ ey, lookupX c y.1 y.2.1 = some ey → codeFwd exec s y.1.toNat ey y.2.2 = 0 := by
+      pageFwd sh exec s0 x.1.toNat e x.2.2 = (r, sf) ∧
+      ∀ y ∈ pre, ∀ ey, lookupX c y.1 y.2.1 = some ey → codeFwd sh exec s y.1.toNat ey y.2.2 = 0 := by
   intro L
   induction L with
   | nil =>
     intro s sf r h hr
-    rw [show runPos (pageFwd exec) c [] s = (-1, s) from rfl] at h
+    rw [show runPos (pageFwd sh exec) c [] s = (-1, s) from rfl] at h
     injection h with h1 _; omega
   | cons a L ih =>
     intro s sf r h hr
@@ -34,10 +34,10 @@ theorem runPos_hit_fwd (exec : Exec) (c : Cache) : ∀ (L : List Pos) (s sf : Se
       · exact hpre y hy ey hey
     | some ea =>
       rw [hla] at h; simp only at h
-      cases hcb : pageFwd exec s ap.toNat ea aw with
+      cases hcb : pageFwd sh exec s ap.toNat ea aw with
       | mk r1 s1 =>
         rw [hcb] at h; simp only at h
-        have hcode : codeFwd exec s ap.toNat ea aw = r1 := by rw [← pageFwd_fst, hcb]
+        have hcode : codeFwd sh exec s ap.toNat ea aw = r1 := by rw [← pageFwd_fst, hcb]
         by_cases hr1 : r1 = 0
         · subst hr1
           simp only [ne_eq, not_true_eq_false, ite_false] at h
@@ -47,7 +47,7 @@ theorem runPos_hit_fwd (exec : Exec) (c : Cache) : ∀ (L : List Pos) (s sf : Se
           intro y hy ey hey
           rcases List.mem_cons.mp hy with rfl | hy
           · simp only at hey ⊢; rw [hla] at hey; injection hey with hey; subst hey; exact hcode
-          · rw [← codeFwd_frozen exec hfz1]; exact hpre y hy ey hey
+          · rw [← codeFwd_frozen sh exec hfz1]; exact hpre y hy ey hey
         · simp only [ne_eq, hr1, not_false_eq_true, ite_true] at h
           injection h with h1 h2; subst h1 h2
           exact ⟨[], (ap, asub, aw), L, ea, s, rfl, hla, Frozen.refl s, hcb, by simp⟩
@@ -93,15 +93,15 @@ theorem searchNext_first_success_fwd (sh : Shape) (exec : Exec) (c : Cache) (s :
   rw [searchNext_factors sh exec c s d hne hp' hok'] at h
   have hr1 := statusOf_success h
   have hdir : dirOf d = 1 := by unfold dirOf; simp [hd]
-  have hcb : callbackOf exec d = pageFwd exec := by unfold callbackOf; simp [hd]
+  have hcb : callbackOf sh exec d = pageFwd sh exec := by unfold callbackOf; simp [hd]
   rw [hdir, hcb, f1, f2] at hr1 hst
-  generalize hrp : runPos (pageFwd exec) c (walkPositions sh c s.stopPgno0 s.stopSubno0 1) (prepare sh s d) = rp at hr1 hst
+  generalize hrp : runPos (pageFwd sh exec) c (walkPositions sh c s.stopPgno0 s.stopSubno0 1) (prepare sh s d) = rp at hr1 hst
   obtain ⟨r, sf⟩ := rp
   simp only at hr1 hst
   subst hr1
   have hst' : (searchNext sh exec walkFuel c s d).st = sf := by rw [hst]; simp
   rw [hst']
-  obtain ⟨pre, x, post, e, s0, hL, hlx, hfz, hcall, hpre⟩ := runPos_hit_fwd exec c _ _ _ _ hrp (by decide)
+  obtain ⟨pre, x, post, e, s0, hL, hlx, hfz, hcall, hpre⟩ := runPos_hit_fwd sh exec c _ _ _ _ hrp (by decide)
   obtain ⟨xp, xs, xw⟩ := x
   simp only at hlx hcall
   obtain ⟨hlop, ms, me, _, hsf⟩ := pageFwd_one hcall
@@ -141,13 +141,13 @@ theorem searchNext_first_success_fwd (sh : Shape) (exec : Exec) (c : Cache) (s :
     have := (c.slots xp.toNat).stat.subMax.toNat_lt
     omega
   -- the code of x in the initial context
-  have hcodex : codeFwd exec (prepare sh s d) xp.toNat e xw = 1 := by
-    rw [← codeFwd_frozen exec hfz, ← pageFwd_fst, hcall]
-  have hnsx := codeFwd_not_stop (by rw [hcodex]; decide : codeFwd exec (prepare sh s d) xp.toNat e xw ≠ -1)
+  have hcodex : codeFwd sh exec (prepare sh s d) xp.toNat e xw = 1 := by
+    rw [← codeFwd_frozen sh exec hfz, ← pageFwd_fst, hcall]
+  have hnsx := codeFwd_not_stop (by rw [hcodex]; decide : codeFwd sh exec (prepare sh s d) xp.toNat e xw ≠ -1)
   refine ⟨by rw [hxpn]; exact hpx, ?_, ?_⟩
   · -- the page returned matches
     refine ⟨e, by rw [hxpn, hxs]; exact hlx, hlop, ?_⟩
-    rw [codeFwd_fresh exec f5 f6 _ _ _ hlop hnsx] at hcodex
+    rw [codeFwd_fresh sh exec f5 f6 _ _ _ hlop hnsx] at hcodex
     cases hx' : exec {} (hayFwd e.text (-1) 0).1 with
     | none => rw [hx'] at hcodex; simp at hcodex
     | some mm => rfl
@@ -220,8 +220,8 @@ theorem searchNext_first_success_fwd (sh : Shape) (exec : Exec) (c : Cache) (s :
       have hypre := mem_pre_of_lt hsorted hyL hylt
       have hcodey := hpre _ hypre e' (by simpa using hl')
       simp only [Int.toNat_natCast] at hcodey
-      have hnsy := codeFwd_not_stop (by rw [hcodey]; decide : codeFwd exec (prepare sh s d) q e' wy ≠ -1)
-      rw [codeFwd_fresh exec f5 f6 _ _ _ hlop' hnsy] at hcodey
+      have hnsy := codeFwd_not_stop (by rw [hcodey]; decide : codeFwd sh exec (prepare sh s d) q e' wy ≠ -1)
+      rw [codeFwd_fresh sh exec f5 f6 _ _ _ hlop' hnsy] at hcodey
       cases hx' : exec {} (hayFwd e'.text (-1) 0).1 with
       | none => rw [hx'] at hsome'; simp at hsome'
       | some mm => rw [hx'] at hcodey; simp at hcodey
@@ -264,8 +264,8 @@ theorem searchNext_not_found_exact_fwd (sh : Shape) (exec : Exec) (c : Cache) (s
   rw [hnone] at hm; simp at hm
 
 /-- `search_page_fwd` returns -1, 0 or 1 -/
-theorem codeFwd_range (exec : Exec) (s : SearchSt) (p : Nat) (e : Entry) (w : Bool) :
-    codeFwd exec s p e w = -1 ∨ codeFwd exec s p e w = 0 ∨ codeFwd exec s p e w = 1 := by
+theorem codeFwd_range (sh : Shape) (exec : Exec) (s : SearchSt) (p : Nat) (e : Entry) (w : Bool) :
+    codeFwd sh exec s p e w = -1 ∨ codeFwd sh exec s p e w = 0 ∨ codeFwd sh exec s p e w = 1 := by
   unfold codeFwd
   split
   · left; rfl
@@ -279,8 +279,8 @@ theorem codeFwd_range (exec : Exec) (s : SearchSt) (p : Nat) (e : Entry) (w : Bo
           · right; left; rfl
           · right; right; rfl
 
-theorem runPos_fwd_range (exec : Exec) (c : Cache) : ∀ (L : List Pos) (s : SearchSt),
-    (runPos (pageFwd exec) c L s).1 = -1 ∨ (runPos (pageFwd exec) c L s).1 = 1 := by
+theorem runPos_fwd_range (sh : Shape) (exec : Exec) (c : Cache) : ∀ (L : List Pos) (s : SearchSt),
+    (runPos (pageFwd sh exec) c L s).1 = -1 ∨ (runPos (pageFwd sh exec) c L s).1 = 1 := by
   intro L
   induction L with
   | nil => intro s; left; rfl
@@ -292,9 +292,9 @@ theorem runPos_fwd_range (exec : Exec) (c : Cache) : ∀ (L : List Pos) (s : Sea
     | none => exact ih s
     | some ea =>
       simp only
-      have hc := pageFwd_fst exec s ap.toNat ea aw
-      have hr := codeFwd_range exec s ap.toNat ea aw
-      generalize pageFwd exec s ap.toNat ea aw = rs at hc
+      have hc := pageFwd_fst sh exec s ap.toNat ea aw
+      have hr := codeFwd_range sh exec s ap.toNat ea aw
+      generalize pageFwd sh exec s ap.toNat ea aw = rs at hc
       obtain ⟨r1, s1⟩ := rs
       simp only at hc ⊢
       rw [← hc] at hr
@@ -312,9 +312,9 @@ theorem searchNext_fwd_status (sh : Shape) (exec : Exec) (c : Cache) (s : Search
     (searchNext sh exec walkFuel c s d).res = .ret SEARCH_SUCCESS ∨
     (searchNext sh exec walkFuel c s d).res = .ret SEARCH_NOT_FOUND := by
   rw [searchNext_factors sh exec c s d hne hp hok]
-  have hcb : callbackOf exec d = pageFwd exec := by unfold callbackOf; simp [hd]
+  have hcb : callbackOf sh exec d = pageFwd sh exec := by unfold callbackOf; simp [hd]
   rw [hcb]
-  rcases runPos_fwd_range exec c (walkPositions sh c (prepare sh s d).startPgno (prepare sh s d).startSubno (dirOf d)) (prepare sh s d)
+  rcases runPos_fwd_range sh exec c (walkPositions sh c (prepare sh s d).startPgno (prepare sh s d).startSubno (dirOf d)) (prepare sh s d)
     with h | h
   · right; rw [h]; rfl
   · left; rw [h]; rfl
